@@ -38,6 +38,8 @@ def convs(rng, tier):
                         ("type0", S.frame(0)), ("type5", S.frame(5, gen.rbytes(rng, 4))), ("type255", S.frame(255))]
                 for name, m in msgs:
                     c = S.Conv(sid, direction=direction, tag="%s.%s.%s" % (state, name, direction))
+                    c.meta = {"state": state, "what": name, "type": m[18]}
+                    c.judge = judge
                     bring_to(c, state)
                     c.send(m)
                     if state == "established" and name in ("keepalive", "update", "update.big"):
@@ -46,11 +48,48 @@ def convs(rng, tier):
                     sid += 1
                 for eof, nm in ((1, "fin"), (2, "rst")):
                     c = S.Conv(sid, direction=direction, tag="%s.%s.%s" % (state, nm, direction))
+                    c.meta = {"state": state, "what": nm, "type": 0}
+                    c.judge = judge
                     bring_to(c, state)
                     c.eof = eof
                     out.append(c)
                     sid += 1
     return out
+
+
+SUB = {"openSent": 1, "openConfirm": 2, "established": 3}
+LEGAL = {("openSent", 1), ("openConfirm", 4), ("established", 4), ("established", 2)}
+
+
+def judge(c, e, o, r):
+    """The property's clauses evaluated directly on the observation (independent of the model)."""
+    state, what = c.meta["state"], c.meta["what"]
+    sent = [m for m in o["wire"][1:] if m[0] == 3]          # NOTIFICATIONs corebgp sent
+    if what in ("fin", "rst"):
+        if sent and not (sent[-1][1][:1] == b"\x06"):
+            return "TCP %s in %s answered with NOTIFICATION %s" % (what, state, sent[-1][1].hex())
+        return None
+    t = c.meta["type"]
+    if t == 3:
+        if sent:
+            return "received NOTIFICATION in %s answered with NOTIFICATION %s" % (state, sent[-1][1].hex())
+        if not o["closed"]:
+            return "connection not closed after a received NOTIFICATION in %s" % state
+        return None
+    if (state, t) in LEGAL and what != "open.bad":
+        return None
+    if what == "open.bad" and state == "openSent":
+        return None      # decided by C02
+    want = bytes([5, SUB[state], t])
+    if not sent or sent[0][1] != want:
+        return "%s: message type %d must yield NOTIFICATION %s, observed %s" % (state, t, want.hex(), [x[1].hex() for x in sent])
+    if not o["closed"]:
+        return "%s: connection not closed after FSM error" % state
+    n_est = sum(1 for x in o["cbs"] if x[0] == "OnEstablished")
+    n_cl = sum(1 for x in o["cbs"] if x[0] == "OnClose")
+    if n_est != n_cl:
+        return "OnEstablished %d times but OnClose %d times" % (n_est, n_cl)
+    return None
 
 
 def sys_part(tier, rng, rep, replay):
